@@ -628,7 +628,13 @@ func (e *Exec) builtin(b *ssa.Builtin, args []Value) Value {
 			}
 			return Slice{o: s.o, v: nv, ok: true}
 		}
-		nc := 2 * cap(s.v)
+		var elem types.Type
+		if sig, ok := b.Type().(*types.Signature); ok && sig.Params().Len() > 0 {
+			if st, ok := sig.Params().At(0).Type().Underlying().(*types.Slice); ok {
+				elem = st.Elem()
+			}
+		}
+		nc := goGrowCap(cap(s.v), need, elem)
 		if nc < need {
 			nc = need
 		}
